@@ -15,6 +15,7 @@ def gen(rng, kind, subset, obs_subset, hetero):
     cfg = dict(kind=kind, P=prand(rng, nv, 2, 3) or {(0,) * nv: 1}, q=prand(rng, nv, 2, 2) or {(0,) * nv: 1},
                plain=[dy(rng, 1, 3), dy(rng), dy(rng)], pts=[[dy(rng) for _ in range(nv)] for _ in range(n)], w=rng.randint(1, 4) / 2,
                batched={k: [dy(rng) for _ in range(n)] for k in subset}, hetero=(prand(rng, nv, 1, 2) or {(0,) * nv: 1}) if hetero else None)
+    cfg["hetero2"] = (prand(rng, nv, 1, 2) or {(0,) * nv: 1}) if (hetero and rng.random() < 0.7) else None      # c := h2(p) * a + c (reads the caller's a)
     if rng.random() < 0.7 or obs_subset:
         cfg["obs"] = dict(inputs=[[dy(rng) for _ in range(nv)] for _ in range(n)], vals=[float(rng.randint(-2, 2)) for _ in range(n)], w=rng.randint(1, 4) / 2,
                           eq={k: [dy(rng) for _ in range(n)] for k in obs_subset})
@@ -23,24 +24,25 @@ def gen(rng, kind, subset, obs_subset, hetero):
     return cfg
 
 
-def evaluate(cfg):
+def build(cfg):
+    """(network, parameters, loss, batch, heterogeneity map) of one configuration"""
     jax, jnp, np, eqx, jinns = jx()
     from jinns.parameters import Params
     from jinns.data._Batchs import ODEBatch, PDEStatioBatch
     kind = cfg["kind"]
     u = mk([cfg["P"]], "ODE" if kind == "ode" else "statio_PDE", output_transform=lambda i, o, p: o + p.eq_params["b"])
     P = Params(nn_params=u.init_params(), eq_params={k: jnp.array(v) for k, v in zip(KEYS, cfg["plain"])})
-    q, hp = cfg["q"], cfg["hetero"]
+    q, hp, hp2 = cfg["q"], cfg["hetero"], cfg.get("hetero2")
     col = lambda rows: jnp.array(rows)[:, None]
     pb = {k: col(v) for k, v in cfg["batched"].items()} or None
     ob = None
     if cfg.get("obs"):
         ob = {"pinn_in": jnp.array(cfg["obs"]["inputs"]), "val": jnp.array(cfg["obs"]["vals"])[:, None], "eq_params": {k: col(v) for k, v in cfg["obs"]["eq"].items()}}
     het = None
-    snapshot = jax.tree_util.tree_map(lambda x: np.asarray(x).copy(), P)
     if kind == "ode":
         if hp:
-            het = {"a": (lambda t, u, params: poly_jax(hp, jnp.atleast_1d(t)) * params.eq_params["a"]), "c": None}
+            het = {"a": (lambda t, u, params: poly_jax(hp, jnp.atleast_1d(t)) * params.eq_params["a"]),
+                   "c": (lambda t, u, params: poly_jax(hp2, jnp.atleast_1d(t)) * params.eq_params["a"] + params.eq_params["c"]) if hp2 else None}
 
         class Eq(jinns.loss.ODE):
             def equation(self, t, u, params):
@@ -54,6 +56,8 @@ def evaluate(cfg):
     else:
         if hp:
             het = {"a": (lambda x, u, params: poly_jax(hp, x) * params.eq_params["a"])}
+            if hp2:
+                het["c"] = lambda x, u, params: poly_jax(hp2, x) * params.eq_params["a"] + params.eq_params["c"]
 
         class Eq(jinns.loss.PDEStatio):
             def equation(self, x, u, params):
@@ -61,7 +65,19 @@ def evaluate(cfg):
         lw = jinns.loss.LossWeightsPDEStatio(dyn_loss=cfg["w"], observations=(cfg.get("obs") or {}).get("w", 1.0))
         L = jinns.loss.LossPDEStatio(u=u, dynamic_loss=Eq(eq_params_heterogeneity=het), params=P, loss_weights=lw)
         batch = PDEStatioBatch(inside_batch=jnp.array(cfg["pts"]), border_batch=None, param_batch_dict=pb, obs_batch_dict=ob)
+    return u, P, L, batch, het
+
+
+def evaluate(cfg):
+    jax, jnp, np, eqx, jinns = jx()
+    kind = cfg["kind"]
+    u, P, L, batch, het = build(cfg)
+    snapshot = jax.tree_util.tree_map(lambda x: np.asarray(x).copy(), P)
     tot, terms = L.evaluate(P, batch)
+    if het:
+        # the public DynamicLoss.evaluate called directly (no vmap in between) must not touch the caller's parameters either
+        pt0 = jnp.array(cfg["pts"][0])
+        L.dynamic_loss.evaluate(*((pt0[0],) if kind == "ode" else (pt0,)), u, P)
     unchanged = all(np.array_equal(np.asarray(a), b) for a, b in zip(jax.tree_util.tree_leaves(P), jax.tree_util.tree_leaves(snapshot)))
     return {k: float(v) for k, v in terms.items()}, unchanged
 
@@ -71,7 +87,7 @@ def case_term(cid, cfg, terms):
     bd = lambda d: clist(sorted(d.items()), lambda kv: f"({cnat(KEYS.index(kv[0]))}, {clist(kv[1], cq)})")
     ic = f"(Some ({clist([cfg['ic']['t0']], cq)}, {cq(cfg['ic']['u0'])}, {cq(cfg['ic']['w'])}))" if cfg.get("ic") else "None"
     o = cfg.get("obs")
-    return (f"mkcase {cnat(cid)} {cnat(nvars(cfg['kind'], 1))} {cpoly(cfg['P'])} {cpoly(cfg['q'])} {('(Some ' + cpoly(cfg['hetero']) + ')') if cfg['hetero'] else 'None'} "
+    return (f"mkcase {cnat(cid)} {cnat(nvars(cfg['kind'], 1))} {cpoly(cfg['P'])} {cpoly(cfg['q'])} {('(Some ' + cpoly(cfg['hetero']) + ')') if cfg['hetero'] else 'None'} {('(Some ' + cpoly(cfg['hetero2']) + ')') if cfg.get('hetero2') else 'None'} "
             f"{clist(cfg['plain'], cq)} {bd(cfg['batched'])} {bd(o['eq']) if o else '[]'} {R(cfg['pts'])} {cq(cfg['w'])} {ic} "
             f"{R(o['inputs']) if o else '[]'} {clist(o['vals'], cq) if o else '[]'} {cq(o['w']) if o else cq(1)} "
             f"{cq(terms['dyn_loss'])} {cq(terms.get('initial_condition', 0.0))} {cq(terms['observations'])}")
@@ -79,12 +95,12 @@ def case_term(cid, cfg, terms):
 
 def jsonable(c):
     pj = lambda p: [[list(k), v] for k, v in sorted(p.items())]
-    return dict(c, P=pj(c["P"]), q=pj(c["q"]), hetero=pj(c["hetero"]) if c["hetero"] else None)
+    return dict(c, P=pj(c["P"]), q=pj(c["q"]), hetero=pj(c["hetero"]) if c["hetero"] else None, hetero2=pj(c["hetero2"]) if c.get("hetero2") else None)
 
 
 def unjson(c):
     pu = lambda p: {tuple(k): v for k, v in p}
-    return dict(c, P=pu(c["P"]), q=pu(c["q"]), hetero=pu(c["hetero"]) if c["hetero"] else None)
+    return dict(c, P=pu(c["P"]), q=pu(c["q"]), hetero=pu(c["hetero"]) if c["hetero"] else None, hetero2=pu(c["hetero2"]) if c.get("hetero2") else None)
 
 
 def subsets():
@@ -101,7 +117,7 @@ def generate(tier, seed, casedir, variant):
         for kind in ("ode", "statio"):
             for sub in subsets():
                 for obs_sub in ([], ["b"], ["a", "b"]) if tier == "thorough" else ([], rng.choice([["b"], ["a"], ["b", "c"]])):
-                    cfg = gen(rng, kind, sub, obs_sub, hetero=rng.random() < 0.4)
+                    cfg = gen(rng, kind, sub, obs_sub, hetero=rng.random() < 0.5)
                     try:
                         terms, unchanged = evaluate(cfg)
                     except Exception as ex:
@@ -114,6 +130,8 @@ def generate(tier, seed, casedir, variant):
                     dist[k] = dist.get(k, 0) + 1
                     if cfg["hetero"]:
                         dist["heterogeneous_a"] = dist.get("heterogeneous_a", 0) + 1
+                    if cfg.get("hetero2"):
+                        dist["heterogeneous_c_reading_a"] = dist.get("heterogeneous_c_reading_a", 0) + 1
                     if obs_sub:
                         dist["observed_params"] = dist.get("observed_params", 0) + 1
                     if sub and len(cfg["pts"]) > 1:
@@ -123,7 +141,7 @@ def generate(tier, seed, casedir, variant):
                     cid += 1
     write_cases(casedir, "C12", "R_C12", variant, cases, chunk=100)
     return dict(meta=meta, oracle_violations=viol, evaluations=len(cases), distinct_nontrivial=len(nontrivial), samples=samples, distribution=dist,
-                rule="every subset of the equation parameters {a, b, c} as batched keys x observed-parameter subsets, for the ODE and the stationary loss (network reads b, equation reads a and c), with and without a heterogeneity map on a, batches of 1..4 points; dynamic, initial-condition and observation terms compared; the caller's parameters must be left unchanged; non-trivial = at least one batched key and more than one sample",
+                rule="every subset of the equation parameters {a, b, c} as batched keys x observed-parameter subsets, for the ODE and the stationary loss (network reads b, equation reads a and c), with and without heterogeneity maps (a := h(p) a; c := h2(p) a + c, reading the caller's a; the equation's evaluate is also called directly), batches of 1..4 points; dynamic, initial-condition and observation terms compared; the caller's parameters must be left unchanged; non-trivial = at least one batched key and more than one sample",
                 oracle_checks=len(cases))
 
 
